@@ -210,8 +210,58 @@ def rule_cr_lf_symmetry(ctx):
     r.floor(8)
 
 
+def rule_census_monotone(ctx):
+    """newlines=auto takes the most frequent terminator of the *input*: the census in cpd.le_counts must only grow
+    between the first character read and the choice at the tail of tokenize() - which is re-entered for every inserted
+    comment template - so the only place that may reset it is uncrustify_end()."""
+    db = ctx.db
+    r = ctx.rule("census-monotone", "every mention of cpd.le_counts is an element increment (LE_COUNT), an element read in tokenize()'s choice "
+                 "of cpd.newline or a diagnostic, or the reset in uncrustify_end(); it is never aliased, passed on or stored to elsewhere")
+    n_inc = n_read = n_reset = 0
+    for f in db.funcs.values():
+        ps = f.parents()
+        for n in f.nodes.values():
+            if n["k"] != "mem" or n.get("n") != "le_counts":
+                continue
+            r.seen()
+            chain = []
+            top = n["i"]
+            while ps.get(top) and len(chain) < 3:
+                top = ps[top][0]
+                chain.append(f.nodes[top])
+            k0 = chain[0] if chain else None
+            k1 = chain[1] if len(chain) > 1 else None
+            inst = "%s/%s" % (f.qn, expr_str(f, chain[1]["i"] if k1 is not None else (k0["i"] if k0 is not None else n["i"]))[:50])
+            loc = db.loc(f, n)
+            if k0 is not None and k0["k"] == "idx" and k1 is not None and k1["k"] == "un" and k1.get("op") == "++":
+                n_inc += 1
+                continue
+            if k0 is not None and k0["k"] == "idx" and k1 is not None and (k1["k"] == "bin" and k1.get("op") in (">=", ">", "<", "<=", "==", "!=")
+                                                                         or k1["k"] == "call" and k1.get("c") in ("log_fmt", "fprintf")
+                                                                         or k1["k"] == "cast"):
+                # a read of one element: comparison (the choice), a diagnostic argument, or an rvalue conversion
+                if k1["k"] == "cast":
+                    k2 = chain[2] if len(chain) > 2 else None
+                    if k2 is None or k2["k"] not in ("bin", "call") or (k2["k"] == "bin" and k2.get("op") == "="):
+                        r.fail(inst, loc, "cpd.le_counts element used in `%s`" % expr_str(f, (k2 or k1)["i"])[:80])
+                        continue
+                n_read += 1
+                r.check(f.qn == "tokenize" or k1["k"] == "call", inst, loc, "the line-ending census is read outside tokenize()'s choice of cpd.newline")
+                continue
+            if k0 is not None and k0["k"] == "call" and k0.get("c") == "memset":
+                n_reset += 1
+                r.check(f.qn == "uncrustify_end", inst, loc, "cpd.le_counts is reset in %s(): the census of the input gathered so far is lost before "
+                        "tokenize() chooses cpd.newline (tokenize() runs again for every inserted comment template)" % f.qn)
+                continue
+            r.fail(inst, loc, "cpd.le_counts is aliased / stored to / passed on in %s (`%s`): only LE_COUNT increments, the choice in tokenize() "
+                   "and the reset in uncrustify_end() may touch the census" % (f.qn, expr_str(f, (k1 or k0 or n)["i"])[:80]))
+    r.require(n_inc >= 15 and n_read >= 4 and n_reset >= 1, "census anchors: %d increments, %d reads, %d resets" % (n_inc, n_read, n_reset))
+    r.note("increments=%d reads=%d resets=%d" % (n_inc, n_read, n_reset))
+    r.floor(1)
+
+
 def RULES_for(tier):
-    return [rule_single_writer, rule_newline_table, rule_census] + ([rule_cr_lf_symmetry] if tier == "thorough" else [])
+    return [rule_single_writer, rule_newline_table, rule_census, rule_census_monotone] + ([rule_cr_lf_symmetry] if tier == "thorough" else [])
 
 
-RULES = [rule_single_writer, rule_newline_table, rule_census]
+RULES = [rule_single_writer, rule_newline_table, rule_census, rule_census_monotone]
